@@ -50,7 +50,10 @@ macro_rules! float_fmt {
         const F: u128 = $f;
         #[inline(never)]
         fn w<T: $crate::common::Flt>(v: T, b: &mut [u8], o: &lexical_core::WriteFloatOptions) -> usize {
-            lexical_core::write_with_options::<T, F>(v, b, o).len()
+            let p0 = b.as_ptr();
+            let out = lexical_core::write_with_options::<T, F>(v, b, o);
+            // usize::MAX signals "returned slice does not start at the buffer start"
+            if out.as_ptr() != p0 { usize::MAX } else { out.len() }
         }
         #[inline(never)]
         fn bs<T: $crate::common::Flt>(o: &lexical_core::WriteFloatOptions) -> usize {
@@ -131,5 +134,46 @@ pub fn mixed_formats<T: Flt>() -> Vec<FloatFmt<T>> {
         (16, 2, 10) (16, 2, 16) (16, 2, 2)
         (32, 2, 10) (32, 2, 32) (32, 2, 2)
         (16, 4, 10) (16, 4, 16) (16, 4, 4));
+    v
+}
+
+#[cfg(feature = "format")]
+macro_rules! writer_list {
+    ($t:ty, $v:ident, $(($name:expr, $f:expr))*) => {
+        $( $v.push(float_fmt!($t, $name, $f)); )*
+    };
+}
+
+/// Formats whose flags change what the float writer emits (decimal; plus radix variants with
+/// the radix feature).
+pub fn writer_formats<T: Flt>() -> Vec<FloatFmt<T>> {
+    #[allow(unused_mut)]
+    let mut v: Vec<FloatFmt<T>> = Vec::new();
+    #[cfg(feature = "format")]
+    {
+        use lexical_core::NumberFormatBuilder as B;
+        writer_list!(T, v,
+            ("w_required_mantissa_sign", B::new().required_mantissa_sign(true).build_strict())
+            ("w_required_exponent_sign", B::new().required_exponent_sign(true).build_strict())
+            ("w_required_exponent_notation", B::new().required_exponent_notation(true).build_strict())
+            ("w_no_exponent_notation", B::new().no_exponent_notation(true).build_strict())
+            ("w_no_exponent_without_fraction", B::new().no_exponent_without_fraction(true).build_strict())
+            ("w_all_signs_expnot", B::new().required_mantissa_sign(true).required_exponent_sign(true).required_exponent_notation(true).build_strict())
+        );
+    }
+    #[cfg(all(feature = "format", feature = "radix"))]
+    {
+        use core::num::NonZeroU8 as N;
+        use lexical_core::NumberFormatBuilder as B;
+        writer_list!(T, v,
+            ("w2_required_exponent_notation", B::new().mantissa_radix(2).exponent_base(N::new(2)).exponent_radix(N::new(2)).required_exponent_notation(true).build_strict())
+            ("w2_no_exponent_notation", B::new().mantissa_radix(2).exponent_base(N::new(2)).exponent_radix(N::new(2)).no_exponent_notation(true).build_strict())
+            ("w16_required_signs", B::new().mantissa_radix(16).exponent_base(N::new(16)).exponent_radix(N::new(16)).required_mantissa_sign(true).required_exponent_sign(true).build_strict())
+            ("w16p_required_exponent_notation", B::new().mantissa_radix(16).exponent_base(N::new(2)).exponent_radix(N::new(10)).required_exponent_notation(true).build_strict())
+            ("w3_required_exponent_notation", B::new().mantissa_radix(3).exponent_base(N::new(3)).exponent_radix(N::new(3)).required_exponent_notation(true).build_strict())
+            ("w3_no_exponent_notation", B::new().mantissa_radix(3).exponent_base(N::new(3)).exponent_radix(N::new(3)).no_exponent_notation(true).build_strict())
+            ("w36_required_signs", B::new().mantissa_radix(36).exponent_base(N::new(36)).exponent_radix(N::new(36)).required_mantissa_sign(true).required_exponent_sign(true).build_strict())
+        );
+    }
     v
 }
